@@ -49,6 +49,19 @@ def generate(kind, outdir):
         if not done:
             raise RuntimeError("no file could be instrumented")
         notes["overlay_instrumented"] = ",".join(done)
+    elif kind == "netshim":
+        # both: the dial seam and the sync shims in net/net.go
+        oj, n1 = generate("net", outdir)
+        data = json.load(open(oj))
+        path = os.path.join(REPO, "net/net.go")
+        dst = data["Replace"][path]
+        out, n = rewrite_sync_imports(open(dst).read())
+        if n == 0:
+            raise RuntimeError("net/net.go has no sync import to instrument")
+        open(dst, "w").write(out)
+        notes.update(n1)
+        notes["overlay_instrumented"] = "net/net.go"
+        replace.update(data["Replace"])
     elif kind == "net":
         # one-token redirection of the dial seam: tls.Dial( -> verifDial(, plus an added file that
         # defines verifDial (falls back to tls.Dial unless the harness installs VerifDial)
